@@ -539,7 +539,8 @@ package lang
 //@   ensures evok: evOK(e)
 
 //@   ensures[C09] copies-live-in-fresh-cells: err == nil && copy ==> (forall k int :: 0 <= k && k < len(result0) ==> fresh(result0[k]))
-//@   loop 0 invariant[C09] copies-so-far-fresh: fresh(evaledExprs) && (copy ==> (forall k int :: 0 <= k && k <= rangeindex ==> fresh(evaledExprs[k])))
+//@   loop 0 invariant own-list: fresh(evaledExprs)
+//@   loop 0 invariant[C09] copies-so-far-fresh: copy ==> (forall k int :: 0 <= k && k <= rangeindex ==> fresh(evaledExprs[k]))
 //@   loop 0 invariant protocol: evInv(e, old(e.stackTop)) && len(evaledExprs) == rangeindex + 1
 
 //@ func Evaluator.evalUnaryExpr [C01,C05,C08,C11]
@@ -749,10 +750,15 @@ package lang
 
 //@ func NewLexer
 //@   ensures lexok: result.pos == 0 && result.tokenStart == 0 && result.src == src
+//@ spec func listKind(rs []*Rule, k RuleKind) bool = forall i int :: 0 <= i && i < len(rs) ==> rs[i].Kind == k
+//@ spec func rulesByKind(e *Evaluator) bool = listKind(e.beginRules, BeginRule) && listKind(e.beginFileRules, BeginFileRule) && listKind(e.endRules, EndRule) && listKind(e.endFileRules, EndFileRule) && listKind(e.patternRules, PatternRule)
 //@ func Evaluator.readRules [C01,C02]
 //@   requires e != nil
 //@   modifies e.beginRules, e.beginFileRules, e.endRules, e.endFileRules, e.patternRules
+//@   ensures[C02] rules-partitioned-by-kind: rulesByKind(e)
 //@   loop 0 invariant own-lists: fresh(e.beginRules) && fresh(e.beginFileRules) && fresh(e.endRules) && fresh(e.endFileRules) && fresh(e.patternRules)
+//@   loop 0 invariant separate-lists: disjointSlices(e.beginRules, e.beginFileRules) && disjointSlices(e.beginRules, e.endRules) && disjointSlices(e.beginRules, e.endFileRules) && disjointSlices(e.beginRules, e.patternRules) && disjointSlices(e.beginFileRules, e.endRules) && disjointSlices(e.beginFileRules, e.endFileRules) && disjointSlices(e.beginFileRules, e.patternRules) && disjointSlices(e.endRules, e.endFileRules) && disjointSlices(e.endRules, e.patternRules) && disjointSlices(e.endFileRules, e.patternRules)
+//@   loop 0 invariant[C02] partition-so-far: rulesByKind(e)
 
 //@ func Evaluator.addProgramFunctions [C01,C08]
 //@   requires e != nil && e.lexer != nil && e.stackTop != nil
@@ -766,6 +772,7 @@ package lang
 //@   modifies nothing
 //@   ensures[C01] ready: result.lexer == lexer && frameOK(result.stackTop) && result.stackTop.parent == nil && result.ruleRoot == nil && result.root == nil
 //@   ensures[C11] no-fault: !$faulted
+//@   ensures[C02] rules-partitioned-by-kind: listKind(result.beginRules, BeginRule) && listKind(result.beginFileRules, BeginFileRule) && listKind(result.endRules, EndRule) && listKind(result.endFileRules, EndFileRule) && listKind(result.patternRules, PatternRule)
 
 //@ func Evaluator.evalRules [C01,C02,C08,C11]
 //@   modifies valueHeap, e.stackTop, e.returnVal
@@ -776,7 +783,11 @@ package lang
 //@   ensures[C08] stack-restored: stackKept(e, old(e.stackTop), result)
 //@   ensures[C11] fault-latched: $faulted <==> isFault(result)
 //@   ensures evok: evOK(e) && e.ruleRoot == old(e.ruleRoot)
-//@   loop 0 invariant protocol: evInv(e, old(e.stackTop))
+//@   after Evaluator.evalExpr: $lastTruthy = (ret1 == nil ? specTruthy(ret0.Value) : false)
+//@   after Evaluator.evalExpr: $lastExprArg = arg1
+//@   assert[C02] pattern-is-the-rules-own: arg1 == rule.Pattern && rule.Pattern != nil @ Evaluator.evalExpr
+//@   assert[C02] body-runs-iff-pattern-absent-or-truthy: arg1 == rule.Body && (rule.Pattern == nil || ($lastExprArg == rule.Pattern && $lastTruthy)) @ Evaluator.evalStatement
+//@   loop 0 invariant protocol: evInv(e, old(e.stackTop)) && e.ruleRoot == old(e.ruleRoot)
 
 //@ func Evaluator.evalPatternRules [C01,C02,C08,C11]
 //@   modifies valueHeap, e.stackTop, e.returnVal, e.ruleRoot
@@ -786,7 +797,9 @@ package lang
 //@   ensures[C01,C02] next-consumed: result != errNext
 //@   ensures[C08] stack-restored: stackKept(e, old(e.stackTop), result)
 //@   ensures[C11] fault-latched: $faulted <==> isFault(result)
-//@   loop 0 invariant protocol: e != nil && e.lexer != nil && frameOK(e.stackTop) && e.stackTop == old(e.stackTop) && !$faulted
+//@   assert?[C02] array-element-is-bound-with-its-index: old(e.root.Value.Tag) == ValueArray && e.ruleRoot == item && e.ruleRoot == old(e.root.Value.Array)[i] && has(e.stackTop.locals, "$index") && e.stackTop.locals["$index"].Value.Tag == ValueNum && same(*e.stackTop.locals["$index"].Value.Num, numOf(i)) && arg1 == patternRules @ Evaluator.evalRules
+//@   assert[C02] whole-root-otherwise: old(e.root.Value.Tag) != ValueArray ==> e.ruleRoot == e.root && arg1 == patternRules @ Evaluator.evalRules
+//@   loop 0 invariant protocol: e != nil && e.lexer != nil && frameOK(e.stackTop) && e.stackTop == old(e.stackTop) && !$faulted && e.root == old(e.root)
 
 //@ func EvalExpression [C01,C11]
 //@   modifies valueHeap
@@ -813,14 +826,25 @@ package lang
 //@   updates $faulted, $out
 //@   ensures[C01] errkind: err == nil || isSyn(err) || isRT(err) || isJsonErr(err) || isScopedFlow(err)
 //@   ensures[C01] next-and-exit-consumed: err != errNext && err != errExit
-//@   loop 0 invariant ready: drvOK(&ev) && !$faulted
-//@   loop 1 invariant ready: drvOK(&ev) && !$faulted
-//@   loop 2 invariant ready: drvOK(&ev) && !$faulted
-//@   loop 3 invariant ready: drvOK(&ev) && !$faulted
-//@   loop 4 invariant ready: drvOK(&ev) && !$faulted
-//@   loop 5 invariant ready: drvOK(&ev) && !$faulted
-//@   loop 6 invariant ready: drvOK(&ev) && !$faulted
-//@   loop 7 invariant ready: drvOK(&ev) && !$faulted
+//@   init $pendingFile = false
+//@   init $mark = 0
+//@   after encoding/json.NewDecoder: $pendingFile = true
+//@   after (*encoding/json.Decoder).Decode: $lastDecode = ret0
+//@   after (*encoding/json.Decoder).Decode: $pendingFile = (ret0 == extvar("io.EOF") ? false : $pendingFile)
+//@   after Evaluator.evalStatement: $mark = $alloc
+//@   assert[C03] previous-file-was-read-to-its-end: !$pendingFile @ encoding/json.NewDecoder
+//@   assert[C03] rules-run-on-complete-values-only: $lastDecode == nil @ Evaluator.evalPatternRules
+//@   assert[C02] pattern-rules-see-the-selected-root: ev.root == rootCell && arg1 == ev.patternRules @ Evaluator.evalPatternRules
+//@   assert?[C02] begin-and-end-rules-see-a-fresh-null: rule.Kind != BeginFileRule && rule.Kind != EndFileRule ==> ev.ruleRoot != nil && ev.ruleRoot.Value.Tag == ValueNil && ev.ruleRoot.Value.ParentObj == nil && newerThan(ev.ruleRoot, $mark) && arg1 == rule.Body @ Evaluator.evalStatement
+//@   exit[C03] decoder-errors-name-the-file: isJsonErr(err) ==> $lastDecode != nil && $lastDecode != extvar("io.EOF")
+//@   loop 0 invariant ready: drvOK(&ev) && !$faulted && $mark <= $alloc
+//@   loop 1 invariant ready: drvOK(&ev) && !$faulted && $mark <= $alloc && !$pendingFile
+//@   loop 2 invariant ready: drvOK(&ev) && !$faulted && $mark <= $alloc && $pendingFile
+//@   loop 3 invariant ready: drvOK(&ev) && !$faulted && $mark <= $alloc
+//@   loop 4 invariant ready: drvOK(&ev) && !$faulted && $mark <= $alloc
+//@   loop 5 invariant ready: drvOK(&ev) && !$faulted && $mark <= $alloc
+//@   loop 6 invariant ready: drvOK(&ev) && !$faulted && $mark <= $alloc
+//@   loop 7 invariant[C03] ready-and-all-input-consumed: drvOK(&ev) && !$faulted && !$pendingFile && $mark <= $alloc
 //@   ensures[C01] evaluator-returned: (err == nil || isRT(err) || isJsonErr(err)) ==> result0 != nil
 
 // ---------------------------------------------------------------- parser (C01, C06, C07, C11, C13)
